@@ -353,7 +353,9 @@ def h_family(fam):
                 assume((a - b >= 0.01) | (b - a >= 0.01)); assume((a - c >= 0.01) | (c - a >= 0.01))
                 assume(ca != cb); assume(ca != cg)
                 assume(al != be); assume(al != ga)      # arccos injective (L1): follows from the cosines differing
-            bx = Box.triclinic(a, b, c, al, be, ga); L = (a, b, c); C = (ca, cb, cg)
+            bx = Box.triclinic(a, b, c, al, be, ga)
+            ref = Box(a=a, b=b, c=c, alpha=al, beta=be, gamma=ga)       # decided by case `abc`
+            return [('is_lammps_norm', bx.is_lammps_norm()), ('triclinic(...) is Box(a,b,c,alpha,beta,gamma)', alleq(bx.vects, ref.vects))]
         V = bx.vects
         dot = lambda u, v: sum(x * y for x, y in zip(u, v))
         ob = [('is_lammps_norm', bx.is_lammps_norm())]
@@ -388,14 +390,14 @@ def cases(tier, seed=0):
     kinds = ['vects', 'avect', 'lengths', 'hilo']
     for k1 in kinds:
         for k2 in kinds + ['abc']:
-            if tier == 'quick' and k2 == 'abc' and k1 != 'lengths': continue
+            if tier == 'quick' and k2 == 'abc': continue
             cs.append(Case(f'pair_{k1}_{k2}', h_pair(k1, k2), bind=BIND, budget_s=170, timeout_ms=(6000 if tier == 'quick' else 60000) if k2 == 'abc' else 20000,
                            descr=f'cell built from {k1}, read back as {k2}, rebuilt: same vectors and origin'))
     cs.append(Case('getters', h_getters(), bind=BIND, budget_s=100, descr='all scalar getters of a LAMMPS-form cell'))
     for g in (False, True):
         cs.append(Case(f'angles_{"general" if g else "lammps"}', h_angles(g), bind=BIND, budget_s=170, timeout_ms=30000,
                        descr='reported lengths, angles and volume are those of the vectors'))
-        cs.append(Case(f'recip_{"general" if g else "lammps"}', h_recip(g), bind=BIND, budget_s=170, timeout_ms=20000,
+        cs.append(Case(f'recip_{"general" if g else "lammps"}', h_recip(g), bind=BIND, budget_s=170, timeout_ms=20000, weight=5,
                        descr='reciprocal vectors dual to the cell vectors, also after the cell is set again (cache invalidation)'))
         shapes = [((3,), False), ((3,), True), ((2, 3), False), ((2, 3), True), ((2, 2, 3), False)]
         if tier == 'thorough': shapes += [((2, 2, 3), True), ((1, 3), True), ((3, 1, 3), False)]
